@@ -5,6 +5,30 @@ import "fmt"
 func registry() []PropSpec {
 	return []PropSpec{
 		{
+			ID: "C10",
+			Quick: []HarnessSpec{
+				{Pkg: pkgCC, Func: "H10a_q", Unwind: 8, Note: "runClient with a fake process: done-callback with exit status 0 or non-zero while the output reader is parked in a read"},
+				{Pkg: pkgCC, Func: "H10b_q", Unwind: 8, Note: "<=2 sendRequest (names from {a,b}, duplicates possible; each write ok / closed pipe / other error) issued before, during (at every read) or after consumeOutput; client output = <=2 responses with names from {a,b,unknown} then clean EOF or an error"},
+			},
+			Thorough: []HarnessSpec{
+				{Pkg: pkgCC, Func: "H10a_q", Unwind: 8, Note: "as quick"},
+				{Pkg: pkgCC, Func: "H10b_t", Unwind: 10, JobSecs: 1800, ExecSecs: 1500, Note: "<=3 sends, <=3 responses"},
+			},
+			Stubs: []string{"internal.ReadDelimitedMessage / WriteDelimitedMessage replaced by stubs (their own behaviour is C09): the read stub yields a symbolic response name or the terminal error and is a scheduling point at which pending sends run", "process = fake controller", "goroutines run at spawn; mutexes sequential; time.After fires only when nothing else is ready"},
+			Out:   []string{"true concurrency of senders and reader inside one atomic step", "real pipes and OS processes"},
+		},
+		{
+			ID: "C04",
+			Quick: []HarnessSpec{
+				{Pkg: pkgCC, Func: "H04a_q", Unwind: 16, Note: "report(): <=2 named cases, each present or not, outcome in {pass, failure, could-not-run}, setup-error / known-failing / known-flaky flags, peer feedback present or not, 0..2 selected cases without any outcome"},
+			},
+			Thorough: []HarnessSpec{
+				{Pkg: pkgCC, Func: "H04a_t", Unwind: 16, JobSecs: 1800, ExecSecs: 1200, Note: "as quick with <=3 named cases"},
+			},
+			Stubs: []string{"printer = recording stub (FAILED/INFO names, totals)", "indent() is the identity (message layout is not the subject)", "sync.Mutex/WaitGroup sequential"},
+			Out:   []string{"Run()/run() orchestration: the conjunction `report() && err == nil` and process handling are read off the source, not encoded", "HTTP trace printing"},
+		},
+		{
 			ID: "C06",
 			Quick: []HarnessSpec{
 				{Pkg: pkgCC, Func: "H06a_q", Unwind: 8, TimeoutMs: 400000, Solvers: []string{"z3-new"}, JobSecs: 900, Note: "features: each of the 5 axis lists of symbolic length <=2 with arbitrary (repeated, unordered) valid enum elements, 7 tri-state flags; arbitrary probe case (all 10 fields symbolic, including out-of-range values)"},
